@@ -2,6 +2,19 @@
 B = "core/BoundedSPSCQueue.h"
 U = "core/UnboundedSPSCQueue.h"
 CASES = [
+ dict(name="b-c20-unbounded-dtor-next-first", ids=["C20", "C02"], subs=[(U, """      auto const to_delete = current_node;
+      current_node = current_node->next;
+      delete to_delete;""", """      Node const* const following = current_node->next;
+      delete current_node;
+      current_node = following;""")]),
+ dict(name="b-c10-report-before-append", ids=["C10"], subs=[("backend/BackendWorker.h", """                         transit_event->macro_metadata->short_source_location(), e.what());
+
+      transit_event->formatted_msg->append(error);
+      _options.error_notifier(error);""", """                         transit_event->macro_metadata->short_source_location(), e.what());
+
+      _options.error_notifier(error);
+      transit_event->formatted_msg->append(error);""")]),
+ dict(name="b-c04-sizecache-size-plus-equals-one", ids=["C04"], subs=[("core/InlinedVector.h", "    ++_size;\n", "    _size += 1;\n"), ("core/InlinedVector.h", "    if (_size == _capacity)\n", "    if (_capacity == _size)\n")]),
  dict(name="b-c19-json-newlines-std-replace", ids=["C19", "C10"], subs=[("sinks/JsonSink.h", """      for (size_t pos = 0; (pos = _format.find('\\n', pos)) != std::string::npos; pos++)
       {
         _format.replace(pos, 1, " ");
